@@ -214,6 +214,12 @@ def run(ctx):
         if c["base"]["outcome"] != "ok" or v != 0:
             ctx.violation({"kind": "GROUP BY + ORDER BY + HAVING + LIMIT through the planner disagrees with Exec.execute_tail", "case": c})
     mark("tail")
+    # ---- size sweep of Table.Sort / Table.Limit (row counts around powers of two and typical thresholds)
+    sweep = T.htable(["-mode", "sweep", "-n", 2 if ctx.tier == "thorough" else 1, "-seed", seed], timeout=1800)
+    ctx.cov["size_sweep"] = T.check_sweep(ctx, sweep, ("sort", "limit"))
+    ctx.cov["size_sweep_note"] = ("tables of the sweep are compared with the spec in Python (permutation, value order, prefix); they are "
+                                  "not evaluated by the Gallina model inside Coq (quick: up to 5003 rows, thorough: up to 65537)")
+    mark("sweep")
     # ---- the two ORACLE order laws (assumed by C12_sorted_time_partial / C12_sorted_time_float_partial), sampled on Go's renderings
     samples = T.htable(["-mode", "oracle", "-n", 2000 * mult, "-seed", seed])
     groups = collections.defaultdict(list)
@@ -260,7 +266,10 @@ def run(ctx):
     ctx.assumptions += ["value order is checked on every table whose key columns hold one kind each; outside D12 a failure "
                         "must be accepted by the classifier of an OPEN finding, otherwise it is a violation",
                         "mixed-kind key columns: only permutation (and exact agreement with Go's insertion sort up to 12 rows)"]
-
+    ctx.assumptions += ["_partial domain D12 (SortSpec.d12_gen): one kind (and literal type) per key column; int64 >= 0 rendered as %032d; text without "
+                        "bytes <= 0x22; bool/blob/node/predicate/string cells by printed form without outer white space; anchors of one zone and "
+                        "one precision and float64 finite, 0 <= f < 10^25, at most six decimals under the two ORACLE order laws (sampled on Go's "
+                        "renderings in every run: oracle_law_adjacent_pairs_checked); evaluated per case inside Coq (verdict 1 = inside D12)"]
 
 def search(ctx, broken):
     """an obligation or the build broke: look for a concrete input on which the engine violates the property"""
